@@ -231,6 +231,13 @@ func (c *connection) sendWaitReply(callerCtx context.Context, msg Message) (Mess
 		key := msg.SystemBytes()
 		ch = e.replies.register(key)
 		defer e.replies.deregister(key)
+
+		// Mark a DATA transaction so RouteReply never completes it with a control response whose
+		// System Bytes merely collide with it (only a data secondary or a Reject.req can).
+		if isData {
+			e.dataTx.Store(key, struct{}{})
+			defer e.dataTx.Delete(key)
+		}
 	}
 
 	vhook.At("hsms.send.afterRegister")
